@@ -212,3 +212,81 @@ def c12(tier):
     res.extra["exhaustive_part"] = "all (state, operation) edges of the abstract store with 3 labels and <= %d issued ids; StoreImpl refinement for all concrete states within MaxIds/MaxAttVec" % (5 if thorough else 4)
     res.assumptions = ["Store.tla is the 'plain set-based model' of the property", "histories start from default()/new_with_labels; duplicates inserted by crate-private new_attack_by_ids are outside C12's quantifier"]
     return res.finish()
+
+
+# ----------------------------------------------------------------------------------------------------------------
+# C08 / C09 dynamic solvers
+# ----------------------------------------------------------------------------------------------------------------
+DYN_KINDS = "co,st,pr,coatt1,coatt1.5,coatt2,statt1,statt1.25,statt3,dummyco,dummyst,dummypr,dummysst"
+
+
+def store_histories(res, maxids, labels="{1, 2, 3}"):
+    cfg = os.path.join(res.wd, "MCStore_%d.cfg" % maxids)
+    open(cfg, "w").write(open(os.path.join(vlib.SPEC, "MCStore.cfg")).read().replace("MaxIds = 4", "MaxIds = %d" % maxids)
+                         .replace("Labels = {1, 2, 3}", "Labels = " + labels))
+    r = vlib.mc("MCStore.tla", cfg=cfg, wd=res.wd, name="MCStore_ids%d" % maxids, timeout=3000)
+    res.add_mc(r)
+    hists = vlib.printed(r["out"], "REPLAY")
+    hfile = os.path.join(res.wd, "hists_%d.jsonl" % maxids)
+    with open(hfile, "w") as f:
+        for h in hists:
+            f.write(json.dumps(h) + "\n")
+    return hfile, len(hists)
+
+
+def dynamic_check(pid, tier, mode):
+    res = Result(pid, tier)
+    vlib.build_harness()
+    thorough = tier == "thorough"
+    runs = []
+    hfile, nh = store_histories(res, 3)
+    runs.append(("hist3_real", ["--hists", hfile, "--oracle", "real"], nh))
+    runs.append(("hist3_rand", ["--hists", hfile, "--oracle", "random", "--stride", 1 if thorough else 3], nh))
+    if thorough:
+        hfile4, nh4 = store_histories(res, 4)
+        runs.append(("hist4_real", ["--hists", hfile4, "--oracle", "real", "--stride", 2], nh4))
+    runs.append(("walks_real", ["--walks", 3000 if thorough else 520, "--len", 60, "--oracle", "real"], 0))
+    runs.append(("walks_rand", ["--walks", 1500 if thorough else 260, "--len", 40, "--oracle", "random"], 0))
+    runs.append(("longwalks", ["--walks", 260 if thorough else 52, "--len", 300, "--oracle", "real"], 0))
+    nt = set()
+    for name, extra, _ in runs:
+        out = os.path.join(res.wd, name + ".ndjson")
+        t = time.time()
+        vlib.vh(["dynamic", "--mode", mode, "--kinds", DYN_KINDS, "--seed", seed(), "--out", out, "--threads", vlib.NCPU] + extra)
+        segs = vlib.segments(out, openers=("reset",))
+        log("  RUN %-12s -> %d histories, %d events %.1fs" % (name, len(segs), sum(len(s) for s in segs), time.time() - t))
+        t1, st = vlib.judge("TraceDynamic.tla", segs, res.wd, name, shards=8)
+        for t in t1:
+            t["extra_attrs"] = {"solver": (t.get("context") or {}).get("kind")}
+        res.add_judge(name, t1, st, only_props={pid})
+        for seg in segs:
+            removed = False
+            bad = False
+            for e in seg[1:]:
+                if e["ev"] == "u":
+                    if e["o"]["op"] in ("rmarg", "rmatt"):
+                        removed = True
+                elif e["ev"] == "q" and removed:
+                    nt.add((seg[0]["kind"], e["kind"], e["arg"], e["cert"], e["st"], json.dumps(e["ext"]), len(seg)))
+        if len(res.samples) < 3:
+            s = segs[len(segs) // 3]
+            res.samples.append({"solver": s[0], "history": s[1:14]})
+    res.nontrivial = len(nt)
+    res.rule = ("histories = one shortest update history per state of Store.tla (3 labels; exported by MCStore) with query rounds at random "
+                "intermediate points and at the end, on each of the 13 solver configurations (6 types; attack variants with factors 1,1.25,1.5,2,3; "
+                "recompute wrapper over CO/ST/PR/SST), with CaDiCaL and with a seeded random model choice; plus seeded random walks of 40-300 "
+                "operations over 3-6 labels re-adding removed labels%s. non-trivial = query answered after at least one removal, distinct by "
+                "(solver, query, answer, certificate, history length)" % ("; redundant / invalid operations inserted at random positions" if mode == "c09" else ""))
+    res.exhaustive = False
+    res.assumptions = ["the logical framework is carried by TraceDynamic with Store.tla's Step", "certificates of dynamic solvers are judged by label (their argument set is private)"]
+    return res.finish()
+
+
+@check("C08")
+def c08(tier):
+    return dynamic_check("C08", tier, "c08")
+
+
+@check("C09")
+def c09(tier):
+    return dynamic_check("C09", tier, "c09")
